@@ -13,7 +13,9 @@ def run(chk):
                 'whose restore crosses volumes, a link and a file on another volume, plus two orphans; TLC (PurgeTrace) '
                 'evaluates InfoLast / RestoreNeverLoses / Frame on every post-kill on-disk state; then the command is run '
                 'again (for a killed trash-restore: trash-empty) and the final state must be the completed purge, with '
-                'restored destinations intact. distinct = (scenario, k)')
+                'restored destinations intact. (3) lock-step runs: the on-disk state after every single operation of the '
+                'uninterrupted command, under permuted directory listings, is validated by TLC as a behaviour of PurgeOps '
+                '(PurgeOpsTrace). distinct = (scenario, k) and distinct state sequences')
     chk.assumptions += opcommon.ASSUME
     for name, kw in [('empty', dict(cmd='empty')), ('rm', dict(cmd='rm')),
                      ('restore_cross', dict(cmd='restore', crossvol=('e2',), selected=('e1', 'e2'))),
@@ -53,6 +55,33 @@ def run(chk):
                               '%s false after %s: scenario %s, killed before operation %s %s: %s' % (
                                   ', '.join(bad), phase, it['scen'], it['k'], it['at'], obs[i - 1]),
                               {'kind': 'purge', 'item': it})
+    # (3) design conformance: the sequence of on-disk states after EVERY operation of an uninterrupted run is a behaviour of
+    # PurgeOps (payload steps before the info, copy before delete), for several directory-listing orders
+    seeds = [0, 1, 2] if chk.tier == 'quick' else list(range(12))
+    seeds = [s + 7 * chk.seed for s in seeds]
+    jobs = [(scen, s) for scen in opdrivers.PURGE_SCENARIOS for s in seeds]
+    trs = tt.pmap(opdrivers.purge_state_trace, jobs)
+    by = {}
+    for t in trs:
+        by.setdefault(t['scen'], []).append(t)
+    for scen, ts in sorted(by.items()):
+        cmd, argv, sel = opdrivers.PURGE_SCENARIOS[scen]
+        uniq = []
+        for t in ts:
+            if t['exit'] != 0:
+                chk.machinery.append('lock-step run of %s exits %s' % (scen, t['exit']))
+            if t['states'] not in uniq:
+                uniq.append(t['states'])
+        res, acc = opspec.validate_purge_traces(uniq, cmd, sel, ['e2', 'e4'])
+        chk.add_tlc('PurgeOpsTrace:' + scen, res, constants='state sequences=%d (of %d runs)' % (len(uniq), len(ts)))
+        chk.traces += len(ts)
+        for i, u in enumerate(uniq):
+            chk.count('design-conformance', 1, key='%s|%s' % (scen, u), nontrivial=True)
+            if res.ok and (i + 1) not in acc:
+                chk.violation('design:%s:state-sequence-not-a-PurgeOps-behaviour' % scen,
+                              'the on-disk states observed after each operation of %s are not a behaviour of PurgeOps '
+                              '(a step removes the info before the payload is gone, deletes before the copy is whole, or '
+                              'touches an entry that is not selected): %s' % (scen, u), {'kind': 'purge-trace', 'scen': scen, 'states': u})
     chk.exhaustive = True
 
 
